@@ -267,3 +267,53 @@ def runWind (toks : List String) : String :=
   | none => "err parse"
 
 end Slab
+
+/-! ### lateral boundary files: the four header records of the gridded family, four boundary-definition
+records (west, east, south, north), then per time step a time record and, per species, one record per edge
+`[1, name (10 words), edge index, ncell·nz values]` -/
+namespace Boundary
+open Words
+
+structure BStep where
+  hdr : List Word                         -- ibdate, btime, iedate, etime
+  recs : List (List Word)                 -- (species, edge) order; each = [1] ++ name ++ [edge] ++ data
+deriving Repr, DecidableEq
+
+structure BFile where
+  headers : List (List Word)              -- file header, grid, cell, species names
+  defs : List (List Word)                 -- four boundary definitions
+  steps : List BStep
+deriving Repr, DecidableEq
+
+def records (f : BFile) : List (List Word) :=
+  f.headers ++ f.defs ++ (f.steps.map (fun s => s.hdr :: s.recs)).flatten
+
+def encode (f : BFile) : List Word := encodeRecs (records f)
+
+end Boundary
+
+namespace Slab
+open Wire Words
+
+def parseRecList (s : String) : Option (List (List Word)) :=
+  if s = "-" then some [] else (s.splitOn ",").mapM parseWords
+
+/-- `bin bnd-enc headers=<r,r,r,r> defs=<r,r,r,r> steps=<hdr:rec,rec|…>` -/
+def runBnd (toks : List String) : String :=
+  let kv := toks.filterMap (fun t => match t.splitOn "=" with
+    | [k, v] => some (k, v)
+    | _ => none)
+  let get (k : String) : Option String := (kv.find? (·.1 == k)).map (·.2)
+  match (get "headers").bind parseRecList, (get "defs").bind parseRecList, get "steps" with
+  | some h, some d, some st =>
+    let steps := if st = "-" then some [] else (st.splitOn "|").mapM (fun s => match s.splitOn ":" with
+      | [hd, rs] => match parseWords hd, parseRecList rs with
+        | some hd, some rs => some (⟨hd, rs⟩ : Boundary.BStep)
+        | _, _ => none
+      | _ => none)
+    (match steps with
+     | some steps => "ok " ++ showWords (Boundary.encode ⟨h, d, steps⟩)
+     | none => "err parse-steps")
+  | _, _, _ => "err parse"
+
+end Slab
